@@ -22,8 +22,11 @@ def guarded_frame(vals, guard=6, sentinel=123):
     return big[guard:guard + fy, guard:guard + fx]
 
 
+GUARDV = 5555        # guard value around the buffer (positive: also valid for unsigned buffers)
+
+
 def guarded_buf(n, h, w, fill, dtype, guard=3):
-    big = np.full((n + 2, h + 2 * guard, w + 2 * guard), -5555, dtype=dtype)
+    big = np.full((n + 2, h + 2 * guard, w + 2 * guard), GUARDV, dtype=dtype)
     view = big[1:n + 1, guard:guard + h, guard:guard + w]
     view[...] = fill
     return big, view
@@ -31,7 +34,7 @@ def guarded_buf(n, h, w, fill, dtype, guard=3):
 
 def pad0_ref(frame, c, h, w, p):
     fy, fx = frame.shape
-    out = np.zeros((h, w), dtype=np.float64)
+    out = np.zeros((h, w), dtype=(frame.dtype if np.dtype(frame.dtype).kind in 'iu' and np.dtype(frame.dtype).itemsize == 8 else np.float64))
     for y in range(h):
         for x in range(w):
             yy, xx = p[0] - c + y, p[1] - c + x
@@ -54,8 +57,8 @@ def run_impl(fn, frame, c, h, w, peaks, fill, dtype=np.float32):
     if not np.array_equal(frame, fr0, equal_nan=True):
         return 'the frame passed in was modified in place', None
     chk = big.copy()
-    chk[1:len(peaks) + 1, 3:3 + h, 3:3 + w] = -5555
-    if not (chk == -5555).all():
+    chk[1:len(peaks) + 1, 3:3 + h, 3:3 + w] = GUARDV
+    if not (chk == np.asarray(GUARDV).astype(chk.dtype)).all():
         return 'guard', view.copy()
     return 'ok', view.copy()
 
@@ -74,7 +77,7 @@ def oracle_case(frame_vals, c, h, w, peaks, fill, dtype=np.float32):
         res[name] = win
         for i, p in enumerate(peaks):
             exp = pad0_ref(frame_vals, c, h, w, p)
-            if not np.array_equal(win[i].astype(np.float64), exp, equal_nan=True):
+            if not np.array_equal(win[i] if exp.dtype.kind in 'iu' else win[i].astype(np.float64), exp, equal_nan=True):
                 return {'backend': name, 'problem': 'window differs from zero-padded window',
                         'peak': [int(p[0]), int(p[1])], 'expected': exp.tolist(), 'got': win[i].tolist()}
     if not np.array_equal(res['per_pixel'], res['slicing'], equal_nan=True):
@@ -147,6 +150,22 @@ def run(ctx):
     if rep:
         ctx.violation('input', 'cropping differs from the zero-padded window: %s' % rep['failure'].get('problem'), rep)
 
+    # ---------------- (S) 64-bit integer frames cropped into buffers of their own dtype: every value must arrive unchanged ----------------
+    for k in range(ctx.n(12, 120)):
+        dt = [np.int64, np.uint64][k % 2]
+        fy, fx = int(rng.integers(1, 9)), int(rng.integers(1, 9))
+        c = int(rng.integers(1, 4))
+        info = np.iinfo(dt)
+        vals = (rng.integers(0, 2 ** 20, size=(fy, fx)).astype(dt) + dt(info.max - 2 ** 21))      # not representable in float64
+        if dt is np.int64 and k % 4 == 0:
+            vals = -vals
+        p = (int(rng.integers(-c, fy + c)), int(rng.integers(-c, fx + c)))
+        fail = oracle_case(vals, c, 2 * c, 2 * c, [p], 0, dt)
+        ctx.count(2, key=('int64', str(np.dtype(dt)), fy, fx, c, p))
+        if fail:
+            ctx.violation('input', 'cropping a %s frame into a %s buffer changes values (%s): %s' % (np.dtype(dt).name, np.dtype(dt).name, fail.get('backend'), fail.get('problem')),
+                          make_replay(vals, c, 2 * c, 2 * c, p, 0, dt, fail))
+            break
     # ---------------- (K) correspondence model <-> implementation ----------------
     ncase = ctx.n(300, 3000)
     cases = []
